@@ -124,14 +124,29 @@ pub const VAR_LENGTHS: [usize; 13] = [1, 2, 3, 15, 16, 17, 249, 250, 251, 505, 5
 pub const OVERSIZE_LENGTHS: [usize; 4] = [1018, 1019, 2000, 65_530];
 
 fn byte_contents(n: usize) -> Vec<Vec<u8>> {
-    vec![ramp(n), vec![0u8; n], vec![0xffu8; n]]
+    let mut v = vec![ramp(n), vec![0u8; n], vec![0xffu8; n]];
+    if n >= 2 {
+        // NUL / blank at either end (a decoder or encoder that trims would show)
+        let mut edge = ramp(n);
+        edge[0] = 0;
+        edge[n - 1] = 0x20;
+        v.push(edge);
+    }
+    v
+}
+
+/// a valid string of exactly `n` octets with everything a "helpful" normalisation would touch:
+/// leading and trailing blanks, upper case, an embedded NUL, a tab, a newline, a DEL
+pub fn tricky_of_len(n: usize) -> String {
+    const PAT: &[u8] = b" Mi\0Xed\tCA se\n\x7f ";
+    (0..n).map(|i| PAT[i % PAT.len()] as char).collect()
 }
 
 fn str_contents(n: usize) -> Vec<String> {
     if n == 0 {
         return vec![String::new()];
     }
-    let mut v = vec![ascii(n), utf8_of_len(n)];
+    let mut v = vec![ascii(n), utf8_of_len(n), tricky_of_len(n)];
     v.dedup();
     v
 }
